@@ -29,4 +29,7 @@ ITEMS = [
     Item('DataStreamProcessor.defaults', S.sym_dsp_base, [], BA.B + 'datastream_processor.py::DataStreamProcessor.process_resource'),
     Item('safe_process', BA.sym_safe_process, [], BA.B + 'datastream_processor.py::DataStreamProcessor.safe_process'),
     Item('process-results', BA.sym_process_results, [], BA.B + 'datastream_processor.py::DataStreamProcessor.process'),
+    Item('get_iterator', BA.sym_get_iterator, [], BA.B + 'datastream_processor.py::DataStreamProcessor.get_iterator'),
+    Item('get_res', BA.sym_get_res, [], BA.B + 'datastream_processor.py::DataStreamProcessor.get_res'),
+    Item('ResourceWrapper', BA.sym_resource_wrapper, [], BA.B + 'resource_wrapper.py::ResourceWrapper.__init__'),
 ]
